@@ -107,10 +107,12 @@ CLAIMS.update({
             "(C03_no_silent_failure); no user-chosen identifier stored in a tree -- package/import segment, item, member, argument, enum "
             "element, annotation-parameter name, user type name segment at any depth -- is an AIDL keyword or reserved Java/C++ word "
             "(C03_names_never_keywords; at the lexer: C03_ident_never_keyword, C03_token_not_later_word); validation never drops a diagnostic "
-            "(C03_kept, C03_kept_all). NOT proved: 'no syntax diagnostic exactly when well-formed under the grammar' (needs a grammar-level "
-            "reference). Decided by running: documents well-formed / malformed by construction, mutations and soups, lexical corner cases, "
+            "(C03_kept, C03_kept_all); a result without an Error diagnostic means the text's token sequence is derivable from the start "
+            "symbol of the regenerated grammar, hence a malformed document always gets an Error (C03_no_error_means_wellformed, "
+            "C03_malformed_is_loud). NOT proved: the converse, well-formed => no syntax diagnostic (completeness of the LALR tables). "
+            "Decided by running: documents well-formed / malformed by construction, mutations and soups, lexical corner cases, "
             "against the oracles 'well-formed => silent', 'malformed-by-construction => Error', plus exact correspondence with the parser model.",
-            "Coq proof (loud failure, identifiers never keywords, diagnostic preservation) + construction-based oracles + exact differential correspondence",
+            "Coq proof (Error-free => derivable in the regenerated grammar, loud failure, identifiers never keywords, diagnostic preservation) + construction-based oracles + exact differential correspondence",
             PARSE_NOTE),
     "C04": ("proof", "PARTIAL proof. Coq theorems: every position built through Position::new is a character boundary inside the text and carries the "
             "lookup's line/column (C04_position, C04_range_partial, C04_boundary). Exactness and nesting are decided by text-based oracles on "
@@ -119,16 +121,22 @@ CLAIMS.update({
             "lookup table checked against the line/column specification) and by exact correspondence with the parser model.",
             "Coq proof (position soundness) + text-based range oracles + exact differential correspondence",
             PARSE_NOTE),
-    "C14": ("other", "No theorem yet (recovery of the generated automaton on arbitrary garbage is an unbounded claim about 256 table states). Decided by "
-            "an oracle on the implementation: for random garbage members at every position of generated items, a tree exists, the "
-            "well-formed siblings are a subsequence of the members (position-free equality), at least one Error, every syntax Error inside "
-            "the garbage's extent; plus exact correspondence with the table-driven Coq parser model (which reproduces recovery exactly).",
-            "garbage-member oracle + exact differential correspondence with the Coq parser model (no theorem)",
+    "C14": ("proof", "PARTIAL proof. Coq theorems, for every text and the regenerated tables: a text whose token sequence is not derivable from "
+            "the start symbol -- what a malformed member makes it -- always gets at least one Error (C14_malformed_is_reported); once error "
+            "recovery has left its mark (an error symbol on the stack or an Error pushed) no later outcome is silent "
+            "(C14_recovery_is_never_silent); recovery never panics and keeps the stack well typed (C01_parse_partial). NOT proved: that the "
+            "tree still holds every well-formed sibling and that every syntax Error lies inside the member's extent. Those are decided by "
+            "an oracle on the implementation -- random garbage members at every position of generated items: a tree exists, the well-formed "
+            "siblings are a subsequence of the members, at least one Error, every syntax Error inside the garbage's extent -- and by the "
+            "exact correspondence with the table-driven Coq parser model (which reproduces lalrpop's recovery, dropped tokens included).",
+            "Coq proof (a malformed text always gets an Error; recovery is never silent; no panic) + garbage-member oracle + exact differential correspondence",
             PARSE_NOTE),
     "C18": ("proof", "PARTIAL proof. Coq theorems: for any text before, any comment text without '/' not starting with '*' (any Unicode), and any blank "
-            "gap, the back-scan returns exactly the comment's text and get_javadoc its normalisation (C18_locate, C18_attach); a construct "
-            "preceded by a non-comment on its line has no documentation (C18_none_partial). Ordinary comments in the gap and the normaliser "
-            "are decided by the generator-based oracle (expected text per construct, 36 explicit arrangements) and exact correspondence.",
+            "gap -- also a gap that contains ordinary block comments and line comments (C18_locate_gap, C18_attach_gap) -- the back-scan "
+            "returns exactly the comment's text and get_javadoc its normalisation (C18_locate, C18_attach); a construct "
+            "preceded by a non-comment on its line has no documentation (C18_none_partial). The normaliser (its three regular expressions "
+            "are regenerated from src/javadoc.rs) is decided by the generator-based oracle (expected text per construct, 36 explicit "
+            "arrangements) and exact correspondence.",
             "Coq proof (state-machine induction over the reversed text) + generator-based documentation oracle + exact differential correspondence",
             PARSE_NOTE),
 })
